@@ -1937,7 +1937,15 @@ func C12RunUsage(e *C12Env, u C12UsageCase) (res C12Result, rows []C12UsageRow) 
 		}
 		overridden := 0
 		for i := 0; i < n; i++ {
-			h := sha256.Sum256(append(append([]byte(u.Base), byte(tt)), byte(i), byte(i>>8)))
+			seedBytes := append(append([]byte(u.Base), byte(tt)), byte(i), byte(i>>8))
+			if i>>16 != 0 {
+				// cases with more than 65536 requests (small weight shares); earlier replays unchanged
+				seedBytes = append(seedBytes, byte(i>>16), byte(i>>24))
+			}
+			h := sha256.Sum256(seedBytes)
+			if i&1023 == 0 {
+				pr.Sender.Sent = nil // the forwarded messages are not looked at here
+			}
 			// generation 957 of the shipped file has a v4-only group, so dual-stack requests use
 			// generation 1 (every group has both families)
 			q := C12Request{Secret: vh.Hex(h[:]), LibVer: 4, Gen: 957, V4: true, V6: u.V6Too && i%2 == 1, Transport: int32(tt),
@@ -2050,7 +2058,7 @@ func C12RunUsage(e *C12Env, u C12UsageCase) (res C12Result, rows []C12UsageRow) 
 						tally = append(tally, fmt.Sprintf("%s(w=%g)=%d", r2.Subnet.CIDR, r2.Subnet.Weight, r2.Count))
 					}
 				}
-				res.bad("usage:subnet-never-chosen", "override subnet #%d %s for %s has weight %g (%.0f %% share) but was never chosen in %d registrations at %g %% override (%d overridden, %d kept their own phantom; %.0f hits expected); tally in configuration order: %s",
+				res.bad("usage:subnet-never-chosen", "override subnet #%d %s for %s has weight %g (%.3g %% share) but was never chosen in %d registrations at %g %% override (%d overridden, %d kept their own phantom; %.0f hits expected); tally in configuration order: %s",
 					j, row.Subnet.CIDR, tname, row.Subnet.Weight, 100*row.Subnet.Weight/total, n, pct, overridden, n-overridden, float64(n)*pct/100*row.Subnet.Weight/total, strings.Join(tally, " "))
 			}
 		}
